@@ -63,6 +63,7 @@ CHECKS = {
         "tests": [
             {"name": "TestC03", "quick": 8000, "thorough": 160000},
             {"name": "TestC03NoRefs", "quick": 6000, "thorough": 80000},
+            {"name": "TestC03API", "quick": 4000, "thorough": 60000},
         ],
     },
     "C04": {
@@ -154,6 +155,7 @@ CHECKS = {
         "technique": "property-based testing (rapid): stateful generation biased to named inserts, reference model",
         "tests": [
             {"name": "TestC15", "quick": 16000, "thorough": 300000},
+            {"name": "TestC15API", "quick": 3000, "thorough": 60000},
         ],
     },
     "C19": {
@@ -429,6 +431,7 @@ CHECKS = {
             {"name": "TestC16Fixed", "kind": "plain", "quick": 8, "thorough": 16, "shards": {"quick": 8, "thorough": 16}},
             {"name": "TestC16", "quick": 320, "thorough": 1600},
             {"name": "TestC16ReconnectWindow", "quick": 3000, "thorough": 40000},
+            {"name": "TestC16Inconsistent", "quick": 1600, "thorough": 30000},
             {"name": "TestC16Leader", "quick": 320, "thorough": 8000, "shards": {"quick": 8, "thorough": 16}},
         ],
     },
@@ -490,7 +493,7 @@ CHECKS = {
         "hang_is_violation": True,
         "tests": [
             {"name": "TestC18Enumerated", "kind": "plain", "quick": 1, "thorough": 1, "shards": {"quick": 1, "thorough": 1}},
-            {"name": "TestC18Concurrent", "quick": 96, "thorough": 3200, "shards": {"quick": 8, "thorough": 16}},
+            {"name": "TestC18Concurrent", "quick": 320, "thorough": 6400, "shards": {"quick": 16, "thorough": 16}},
         ],
     },
     "C20": {
